@@ -58,6 +58,32 @@ fn families() -> Vec<(&'static str, Vec<Vec<(&'static str, VariantType)>>)> {
     ]
 }
 
+/// Classes whose own default for a property differs from the default an ancestor records for it (found by walking the
+/// database; NegateOperation over PartOperation at the pinned version): the gap value must be the nearest one.
+fn override_families() -> Vec<(&'static str, Vec<Vec<(&'static str, VariantType)>>)> {
+    let db = dbwalk::db();
+    let mut out = vec![];
+    for cname in dbwalk::sorted_class_names(db) {
+        let chain = dbwalk::class_chain(db, cname);
+        let mut fam: Vec<Vec<(&'static str, VariantType)>> = vec![];
+        let mut keys: Vec<&str> = chain[0].default_properties.keys().map(|k| k.as_ref()).collect();
+        keys.sort();
+        for k in keys {
+            let own = &chain[0].default_properties[k];
+            let inherited = chain.iter().skip(1).find_map(|c| c.default_properties.get(k));
+            let differs = matches!(inherited, Some(i) if canon::value(i, &|_| J::Null) != canon::value(own, &|_| J::Null));
+            let travels = matches!(dbwalk::travel(db, cname, k), Some(t) if t.back_name == k);
+            if differs && travels && !matches!(own, Variant::Ref(_) | Variant::UniqueId(_)) {
+                fam.push(vec![(Box::leak(k.to_owned().into_boxed_str()), own.ty())]);
+            }
+        }
+        if !fam.is_empty() {
+            out.push((&*Box::leak(cname.to_owned().into_boxed_str()), fam));
+        }
+    }
+    out
+}
+
 fn gen_value(g: &VGen, r: &mut Rng, spelling: &str, ty: VariantType) -> Variant {
     match (spelling, ty) {
         // legacy Font items that have a FontFace equivalent (C15 owns the full range)
@@ -125,8 +151,13 @@ fn permutations(n: usize, r: &mut Rng) -> Vec<Vec<usize>> {
 fn case(rep: &mut Report, seed: u64, index: u64) {
     let mut r = Rng::derive(seed, "c08", index);
     let g = VGen::binary();
-    let fams = families();
+    static OVR: std::sync::OnceLock<Vec<(&'static str, Vec<Vec<(&'static str, VariantType)>>)>> = std::sync::OnceLock::new();
+    let mut fams = families();
+    fams.extend(OVR.get_or_init(override_families).iter().cloned());
     let (class, fam) = &fams[r.below(fams.len())];
+    if fams.len() > families().len() && index == 0 {
+        rep.add("classes_with_overriding_defaults", (fams.len() - families().len()) as u64);
+    }
     let n = 2 + r.below(4);
     let gen_group = |r: &mut Rng| -> Vec<Inst> {
         (0..n)
